@@ -12,6 +12,9 @@
 #include "c09_common.h"
 #include "mc.hpp"
 
+#ifndef C09_COMPILER
+#define C09_COMPILER "?"
+#endif
 #ifndef PART
 #define PART 0
 #endif
@@ -201,7 +204,7 @@ namespace
             T w = make<T>(0, (i + 1) % n);
             std::string ref;
             ref_enc(ref, v);
-            mc::describe("new %s value #%ld/%ld stated-layout bytes %s (%zu), every truncation point", tn.c_str(), i, n, hexs(ref).c_str(),
+            mc::describe("new[" C09_COMPILER "] %s value #%ld/%ld stated-layout bytes %s (%zu), every truncation point", tn.c_str(), i, n, hexs(ref).c_str(),
                          ref.size());
             if (!is_scalar_v<T> && ref.size() > 2)
                 mc::nontrivial();
